@@ -883,6 +883,9 @@ class Parser(ABC):
                         if data_model in models:  # pragma: no cover
                             child.replace_reference(cached_model_reference)
                     duplicates.append(model)
+                elif not model.BASE_CLASS and not model.base_classes and model.TEMPLATE_FILE_PATH == "root.jinja2":
+                    # a plain type alias (`Name = <type>`) cannot inherit from the cached model: keep it as it is
+                    continue
                 else:
                     index = models.index(model)
                     inherited_model = model.__class__(
